@@ -177,6 +177,8 @@ def stateStr (w : Option (W α)) (fn : Fn α) : String :=
   ++ " fv=" ++ Codec.render fn.fval ++ " P" ++ vs (values fn.params)
   ++ (match w with
     | some w => " D1" ++ ds w.der1 ++ " D2" ++ ds w.der2 ++ " X" ++ String.join (w.cross.map ds)
+        -- the wrapped function seen through the wrapper (`FunctionWrapper` forwards)
+        ++ " WP" ++ vs (values fn.params) ++ " 1 " ++ toString fn.params.length
     | none => "")
   ++ " E " ++ showBool fn.en1 ++ " " ++ showBool fn.en2
   ++ " L " ++ toString pts.length ++ String.join (pts.map vs)
@@ -209,13 +211,31 @@ def stepModel (s : S α) (op : List String) : Option (S α × String) :=
       | _ => none
     | _, _ => none
   | ["wrap", sch, h] =>
-    match s.fn, (Codec.parse h : Option α) with
+    -- `D`: no `setInterval`, the constructors' default 0.0001 (NumericalDerivative.h:81)
+    match s.fn, (if h == "D" then some (ofRat 1 10000) else (Codec.parse h : Option α)) with
     | some fn, some h =>
       let scheme : Scheme := if sch == "2" then .two else if sch == "3" then .three else .five
       let w : W α := { scheme := scheme, h := h, vars := [], der1 := [], der2 := [], cross := [], c1 := true, c2 := true, cx := false,
                        f1 := zero, f2 := zero, f3 := zero, fn := fn }
-      some ({ s with w := some w }, "ok r=-" ++ stateStr (some w) fn)
+      some ({ s with w := some w }, "ok r=" ++ Codec.render h ++ stateStr (some w) fn)
     | _, _ => none
+  | ["interval", h] =>
+    match s.w, (Codec.parse h : Option α) with
+    | some w, some h =>
+      let w := { w with h := h }
+      some ({ s with w := some w }, "ok r=" ++ Codec.render w.h ++ stateStr (some w) w.fn)
+    | _, _ => none
+  | ["fnenable", a, b] =>
+    match curFn s with
+    | some fn =>
+      let fn := (fn.enable1 (a == "1")).enable2 (b == "1")
+      some (putFn s fn, "ok r=-" ++ stateStr s.w fn)
+    | none => none
+  | ["copy"] | ["assign"] =>
+    -- copy constructor / assignment operator: every field is taken over, the wrapped function is shared
+    match s.w with
+    | some w => some (s, "ok r=-" ++ stateStr (some w) w.fn)
+    | none => none
   | "fnset" :: r =>
     match curFn s, pList (α := α) r with
     | some fn, some (pl, _) =>
@@ -236,7 +256,14 @@ def stepModel (s : S α) (op : List String) : Option (S α × String) :=
     match s.w with
     | some w =>
       let w := { w with c1 := a == "1", c2 := b == "1", cx := c == "1" }
-      some ({ s with w := some w }, "ok r=-" ++ stateStr (some w) w.fn)
+      some ({ s with w := some w }, "ok r=" ++ showBool w.c1 ++ showBool w.c2 ++ showBool w.cx ++ stateStr (some w) w.fn)
+    | none => none
+  | ["en1", a] | ["en2", a] | ["enx", a] =>
+    match s.w with
+    | some w =>
+      let o := op.headD ""
+      let w := if o == "en1" then { w with c1 := a == "1" } else if o == "en2" then { w with c2 := a == "1" } else { w with cx := a == "1" }
+      some ({ s with w := some w }, "ok r=" ++ showBool w.c1 ++ showBool w.c2 ++ showBool w.cx ++ stateStr (some w) w.fn)
     | none => none
   | "get" :: what :: r =>
     match s.w with
@@ -260,6 +287,32 @@ def stepModel (s : S α) (op : List String) : Option (S α × String) :=
       let (w', e, _) := w.call f (.setOne n v)
       some ({ s with w := some { w' with fn := clearLog w'.fn }, lastOk := e.isNone }, statusStr e ++ " r=-" ++ stateStr (some w') w'.fn)
     | _, _, _ => none
+  | "df" :: n :: r | "d2f" :: n :: r =>
+    -- `FirstOrderDerivable::df` / `SecondOrderDerivable::d2f` (Functions.h:138, 193): `setParameters` then the getter
+    match s.w, nat? n, pList (α := α) r with
+    | some w, some n, some (pl, _) =>
+      let f := polyEval s.poly []
+      let D := polyDeriv s.poly
+      let (w', e, _) := w.call f (.setParameters pl)
+      let g : Except Exc (DVal α) := if op.head? == some "df" then w'.getD1 D n else w'.getD2 D n
+      let ans := match e, g with
+        | some x, _ => excStr x ++ " r=-"
+        | none, .ok d => "ok r=" ++ rD d
+        | none, .error x => excStr x ++ " r=-"
+      some ({ s with w := some { w' with fn := clearLog w'.fn }, lastOk := e.isNone }, ans ++ stateStr (some w') w'.fn)
+    | _, _, _ => none
+  | "d2fx" :: n :: m :: r =>
+    match s.w, nat? n, nat? m, pList (α := α) r with
+    | some w, some n, some m, some (pl, _) =>
+      let f := polyEval s.poly []
+      let D := polyDeriv s.poly
+      let (w', e, _) := w.call f (.setParameters pl)
+      let ans := match e, w'.getDX D n m with
+        | some x, _ => excStr x ++ " r=-"
+        | none, .ok d => "ok r=" ++ rD d
+        | none, .error x => excStr x ++ " r=-"
+      some ({ s with w := some { w' with fn := clearLog w'.fn }, lastOk := e.isNone }, ans ++ stateStr (some w') w'.fn)
+    | _, _, _, _ => none
   | o :: r =>
     match s.w, pList (α := α) r with
     | some w, some (pl, _) =>
@@ -283,7 +336,7 @@ def stepModel (s : S α) (op : List String) : Option (S α × String) :=
 def section_ (t : List String) (a : String) (markers : List String) : List String :=
   ((t.dropWhile (· != a)).drop 1).takeWhile (fun x => !markers.contains x)
 
-def markers : List String := ["P", "D1", "D2", "X", "E", "L"]
+def markers : List String := ["P", "D1", "D2", "X", "WP", "E", "L"]
 
 def field (t : List String) (pre : String) : Option String :=
   (t.find? (·.startsWith pre)).map (fun x => (x.drop pre.length).toString)
@@ -294,6 +347,10 @@ def chunks {β : Type} (n : Nat) (l : List β) : List (List β) :=
 
 def entryOf (op : List String) : Option (Entry α) :=
   match op with
+  | "df" :: _ :: r | "d2f" :: _ :: r | "d2fx" :: _ :: _ :: r =>
+    match pList (α := α) r with
+    | some (pl, _) => some (.setParameters pl)
+    | none => none
   | ["setone", n, v] =>
     match nat? n, (Codec.parse v : Option α) with
     | some n, some v => some (.setOne n v)
@@ -317,6 +374,8 @@ def verdictEntry (s : S α) (w : W α) (ent : Entry α) (t : List String) : Stri
   let r (l : List α) := l.map Codec.render
   let fB := Codec.render (f (values fnB.params))
   let noPrec := w.fn.params.all (fun p => eqb p.prec zero)
+  -- the wrapped function seen through the wrapper is the wrapped function
+  if section_ t "WP" markers != implP ++ ["1", toString w.fn.params.length] then "FAIL:wrapper_view" else
   let transparent : String :=
     -- with a precision on the wrapped function's side its parameters only follow up to that
     -- precision: nothing is claimed then
@@ -330,15 +389,24 @@ def verdictEntry (s : S α) (w : W α) (ent : Entry α) (t : List String) : Stri
       match fe with
       | some _ => if implP != r (values w.fn.params) then "FAIL:raise_unchanged" else "ok"
       | none =>
-        -- the selection is well formed: no duplicate, only parameters of the wrapped function
-        let wf := w.vars.all (fun v => has w.fn.params v) && decide (w.vars.eraseDups.length = w.vars.length)
+        -- `transparent_on_raise`: the selection is well formed (no duplicate, only parameters of the
+        -- wrapped function) and the step is not 0: the only exception is the one of the cross
+        -- derivatives at a limit, and it leaves with everything restored
+        let wf := w.vars.all (fun v => has w.fn.params v) && decide (w.vars.eraseDups.length = w.vars.length) &&
+          !(eqb w.h zero)
         let sch := match w.scheme with
           | .two => "two"
           | .three => "three"
           | .five => "five"
-        if wf && implP != r (values fnB.params) then
-          "FAIL:transparent_on_raise_" ++ sch ++ "_" ++ ((t.headD "").drop 4).toString
-        else "ok"
+        let kind := ((t.headD "").drop 4).toString
+        if !wf then "ok"
+        else if implP != r (values fnB.params) then "FAIL:transparent_on_raise_" ++ sch ++ "_" ++ kind
+        else if field t "v=" != some fB || field t "fv=" != some fB then "FAIL:transparent_on_raise_value"
+        else if !(w.scheme == .three && w.cx && kind == "bpp") then "FAIL:one_sided_no_raise_" ++ sch ++ "_" ++ kind
+        else
+          let want1 := showBool (if w.fn.kind ≥ 1 then w.c1 else w.fn.en1)
+          let want2 := showBool (if w.fn.kind ≥ 2 then w.c2 else w.fn.en2)
+          if section_ t "E" markers != [want1, want2] then "FAIL:transparent_on_raise_flags" else "ok"
   if transparent != "ok" then transparent else
   -- after a call that returns, the analytical derivatives of the wrapped function are switched on
   -- exactly when the wrapper has the corresponding derivatives on (delegation_fresh)
@@ -389,10 +457,24 @@ def verdictEntry (s : S α) (w : W α) (ent : Entry α) (t : List String) : Stri
       -- the probes never leave [x - k*hh, x + k*hh]; intervals are convex, so end points suffice
       let k : α := if w.scheme == .five then two else one
       (feasibleAt iv.2 (x - k * hh) || feasibleAt iv.2 (x + k * hh)) && gtb w.h zero
-  let bad :=
-    if implOk then sel.any (fun iv => room iv && d1.getD iv.1 "nan" == "nan")
-    else !(w.scheme == .three && w.cx) && sel.all room
-  if bad then "FAIL:one_sided_fallback" else "ok"
+  -- (a call that raises is judged above: `transparent_on_raise`)
+  let bad := implOk && sel.any (fun iv => room iv && d1.getD iv.1 "nan" == "nan")
+  if bad then "FAIL:one_sided_fallback" else
+  -- two-point scheme, all ten tries (left, right, then halved steps alternately): the NaN marker only
+  -- when none of them is accepted by the constraints with a value below VERY_BIG
+  let tries (h0 : α) : List α :=
+    (List.range 10).foldl (fun (acc : List α × α) _ =>
+      (acc.1 ++ [acc.2], if ltb acc.2 zero then -acc.2 else acc.2 / (-(ofInt 2)))) ([], h0) |>.1
+  let room2 (iv : Nat × Nat) : Bool :=
+    match find? fnB.params iv.2, posOf fnB.params iv.2 with
+    | some b, some k =>
+      let x := b.value
+      (tries (-(one + abs x) * w.h)).any (fun h =>
+        feasibleAt iv.2 (x + h) && !tooBig (f ((values fnB.params).set k (x + h))))
+    | _, _ => false
+  let bad2 := implOk && w.scheme == .two && !(eqb w.h zero) &&
+    sel.any (fun iv => idx w.vars iv.2 == some iv.1 && room2 iv && d1.getD iv.1 "nan" == "nan")
+  if bad2 then "FAIL:two_point_retries" else "ok"
 
 /-- delegation: a derivative of a non-selected variable (or with numerical derivatives switched
 off) is the wrapped function's analytical derivative at the current point -/
@@ -470,8 +552,10 @@ def verdictExact (poly : List (Mono Rat)) (wPre wB : W Rat) (callerList : PList 
       else if wB.scheme != .two && deg ≤ 2 && !exactTok i2 a2 true then "FAIL:d2_exact_deg2"
       -- without constraints the probes are symmetric
       else if fr && wB.scheme == .two && deg ≤ 1 && !exactTok i1 a1 false then "FAIL:two_point_exact_deg1"
-      else if fr && wB.scheme == .three && deg ≤ 2 && !exactTok i1 a1 false then "FAIL:three_point_d1_exact_deg2"
-      else if fr && wB.scheme == .three && deg ≤ 3 && !exactTok i2 a2 false then "FAIL:three_point_d2_exact_deg3"
+      -- (three-point scheme: symmetric for a positive step, the hypothesis of `three_point_stored_exact`;
+      -- with a negative step the second probe is on the same side as the first one)
+      else if fr && wB.scheme == .three && decide (wB.h > 0) && deg ≤ 2 && !exactTok i1 a1 false then "FAIL:three_point_d1_exact_deg2"
+      else if fr && wB.scheme == .three && decide (wB.h > 0) && deg ≤ 3 && !exactTok i2 a2 false then "FAIL:three_point_d2_exact_deg3"
       else if fr && wB.scheme == .five && deg ≤ 4 && !exactTok i1 a1 false then "FAIL:five_point_d1_exact_deg4"
       else if fr && wB.scheme == .five && deg ≤ 5 && !exactTok i2 a2 false then "FAIL:five_point_d2_exact_deg5"
       else acc) "ok"
@@ -494,7 +578,37 @@ structure St where
   f : S Float := {}
   r : Option (S Rat) := none
 
-def isEntry (o : String) : Bool := ["set", "setall", "setvals", "match", "f", "setone"].contains o
+def isEntry (o : String) : Bool := ["set", "setall", "setvals", "match", "f", "setone", "df", "d2f", "d2fx"].contains o
+def isDf (o : String) : Bool := ["df", "d2f", "d2fx"].contains o
+
+/-- `df` / `d2f`: what is returned is the derivative the wrapper stores for that variable after the
+update (when it is a selected variable with numerical derivatives of that order switched on) -/
+def verdictDf (w : W Float) (op : List String) (t : List String) : String :=
+  if t.head? != some "ok" then "ok" else
+  let r := field t "r="
+  let d1 := section_ t "D1" markers
+  let d2 := section_ t "D2" markers
+  let xs := chunks w.vars.length (section_ t "X" markers)
+  match op with
+  | ["df", n] =>
+    match nat? n with
+    | some n => match idx w.vars n with
+      | some i => if w.c1 && r != d1[i]? then "FAIL:df_consistent" else "ok"
+      | none => "ok"
+    | none => "ok"
+  | ["d2f", n] =>
+    match nat? n with
+    | some n => match idx w.vars n with
+      | some i => if w.scheme != .two && w.c2 && r != d2[i]? then "FAIL:d2f_consistent" else "ok"
+      | none => "ok"
+    | none => "ok"
+  | ["d2fx", n, m] =>
+    match nat? n, nat? m with
+    | some n, some m => match idx w.vars n, idx w.vars m with
+      | some i, some j => if w.scheme == .three && w.cx && r != (xs.getD i [])[j]? then "FAIL:d2f_cross_consistent" else "ok"
+      | _, _ => "ok"
+    | _, _ => "ok"
+  | _ => "ok"
 
 def step (st : St) (op : List String) (impl : Option (List String)) : St × String × String :=
   match stepModel st.f op with
@@ -512,7 +626,13 @@ def step (st : St) (op : List String) (impl : Option (List String)) : St × Stri
           if isEntry o then
             match st.f.w, (entryOf (α := Float) op) with
             | some w, some ent =>
+              -- `df`/`d2f`: the exception of the getter (after an update that returned) is not an
+              -- exception of the update: the entry-point part is judged as returned
+              let getterRaised := isDf o && sf.lastOk && t.head? != some "ok" && (out.splitOn " ").head? == t.head?
+              let t := if getterRaised then "ok" :: t.drop 1 else t
               let v := verdictEntry st.f w ent t
+              if v != "ok" then v else
+              let v := if isDf o && !getterRaised then verdictDf w (op.take (if o == "d2fx" then 3 else 2)) t else "ok"
               if v != "ok" then v else
               -- exactness, when the rational run agrees with the double run on this answer
               match st.r, rr with
@@ -527,6 +647,21 @@ def step (st : St) (op : List String) (impl : Option (List String)) : St × Stri
                 | _, _, _ => "ok"
               | _, _ => "ok"
             | _, _ => "ok"
+          else if o == "interval" then
+            match rest with
+            | [h] => if field t "r=" == (Hex.float? h).map canon then "ok" else "FAIL:interval_readback"
+            | _ => "ok"
+          else if o == "enable" then
+            if field t "r=" == some (String.join rest) then "ok" else "FAIL:enable_readback"
+          else if o == "en1" || o == "en2" || o == "enx" then
+            -- one switch alone: the two others keep their state
+            match st.f.w with
+            | some w =>
+              let a := rest.headD ""
+              let want := (if o == "en1" then a else showBool w.c1) ++ (if o == "en2" then a else showBool w.c2)
+                ++ (if o == "enx" then a else showBool w.cx)
+              if field t "r=" == some want then "ok" else "FAIL:enable_readback"
+            | none => "ok"
           else if o == "get" then
             match st.f.w, rest with
             | some w, what :: ns =>
